@@ -4,10 +4,9 @@
     inverted inserted ranges are not generated). *)
 From V.Lib Require Import Base.
 From V.Gen Require Import C15Tables.
-From V.C15 Require Import Model Spec Corr.
+From V.C15 Require Import Model Spec QModel Corr.
 Local Open Scope Z_scope.
 
-Definition u32_max : Z := 4294967295.
 Definition is_u32 (x : Z) : bool := (0 <=? x) && (x <=? u32_max).
 Definition sr_u32 (r : sr) : bool := is_u32 (rs r) && is_u32 (re r).
 Definition sr_valid (r : sr) : bool := sr_u32 r && (rs r <=? re r).
@@ -17,4 +16,14 @@ Definition wf_case (c : case) : bool :=
   | TreeSeq init ops _ => sr_valid init && forallb (fun o => sr_valid (fst o)) ops
   | FromParts s e _ => is_u32 s && is_u32 e
   | TruncStart s e h _ | TruncEnd s e h _ | SplitAt s e h _ => sr_valid (R s e FoundNote) && is_u32 h
+  | QStep c pre op _ _ =>
+      forallb sr_valid pre &&
+      match op with
+      | OpTip t => is_u32 t
+      | OpScan s e a b i => is_u32 s && is_u32 e && (s <=? e)
+      | OpRescan rs_ _ => forallb (fun r => is_u32 (fst r) && is_u32 (snd r) && (fst r <=? snd r)) rs_
+      | OpTrim h => is_u32 h
+      | OpPrune h _ => is_u32 h
+      end
+  | QLoop b t _ _ final _ _ => is_u32 b && is_u32 t && forallb sr_valid final
   end.
